@@ -263,6 +263,7 @@ def hmdAdopt (m : M) : M :=
 def hmdBlock (m : M) (d : IDl) (k i len : Nat) (good : Bool) : M :=
   if i ≥ d.nb then onSt (closePeerM m k) fun s => { s with mayStartI := !s.info }
   else if len ≠ blockSizeOf d.size i then onSt (closePeerM m k) fun s => { s with mayStartI := !s.info }
+  else if (d.blocks.getD i none).isSome then onSt (closePeerM m k) fun s => { s with mayStartI := !s.info }
   else
     let d' : IDl := { d with pending := d.pending - 1, blocks := d.blocks.set i (some good) }
     let m' := onSt m fun s => { s with idls := s.idls.map fun x => if x.k = k then d' else x }
